@@ -50,9 +50,10 @@ enum Probe
 	P_MOVE_ASSIGN,
 	P_SWAP,
 	P_ZERO_PREF,
+	P_EXCURSION,
 	P_NPROBES
 };
-const char* PROBE_NAMES[] = {"locate_hunt_up", "locate_hunt_down", "locate_bisection", "locate_same_segment", "locate_extrapolation_zone", "query_at_knot", "query_at_knot_while_correlated", "query_at_nextafter_of_knot", "copy_construct", "assign_into_object_of_other_table", "self_assign", "copy_then_destroy_original", "prefactor_negative_set", "prefactor_tiny_or_huge_set", "extremum_query_spanning_3plus_knots", "extremum_or_integral_limit_in_extrapolation_zone", "integral_spanning_many_pieces", "integral_reversed_limits", "query_under_prefactor_not_1", "query_under_negative_prefactor", "run_is_2d", "oracle_comparisons", "bit_exact_comparisons", "tolerance_comparisons_at_knots", "sweep_ops", "table_200_or_more_points", "comparisons_with_a_pristine_process", "same_argument_asked_of_another_table_first", "move_assignment", "swap_of_two_objects", "query_under_zero_prefactor"};
+const char* PROBE_NAMES[] = {"locate_hunt_up", "locate_hunt_down", "locate_bisection", "locate_same_segment", "locate_extrapolation_zone", "query_at_knot", "query_at_knot_while_correlated", "query_at_nextafter_of_knot", "copy_construct", "assign_into_object_of_other_table", "self_assign", "copy_then_destroy_original", "prefactor_negative_set", "prefactor_tiny_or_huge_set", "extremum_query_spanning_3plus_knots", "extremum_or_integral_limit_in_extrapolation_zone", "integral_spanning_many_pieces", "integral_reversed_limits", "query_under_prefactor_not_1", "query_under_negative_prefactor", "run_is_2d", "oracle_comparisons", "bit_exact_comparisons", "tolerance_comparisons_at_knots", "sweep_ops", "table_200_or_more_points", "comparisons_with_a_pristine_process", "same_argument_asked_of_another_table_first", "move_assignment", "swap_of_two_objects", "query_under_zero_prefactor", "prefactor_excursion_to_1e+-150..290_and_back"};
 
 enum Metric
 {
@@ -308,7 +309,7 @@ struct Exec
 						Interpolation F = make1d(tab);
 						if(q.has_pref)
 							F.Set_Prefactor(q.net);
-						a.value = q.kind == 0 ? F.Interpolate(q.a) : q.kind == 2 ? F.Derivative(q.a, (unsigned) q.k) : q.kind == 3 ? F.Integrate(q.a, q.b) : q.kind == 8 ? (double) F.Locate(q.a) : 0.0;
+						a.value = q.kind == 0 ? F.Interpolate(q.a) : q.kind == 2 ? F.Derivative(q.a, (unsigned) q.k) : q.kind == 3 ? F.Integrate(q.a, q.b) : q.kind == 8 ? (double) F.Locate(q.a) : q.kind == 4 ? F.Local_Minimum(q.a, q.b) : q.kind == 5 ? F.Local_Maximum(q.a, q.b) : q.kind == 6 ? F.Global_Minimum() : q.kind == 7 ? F.Global_Maximum() : 0.0;
 					}
 					else
 					{
@@ -865,6 +866,11 @@ struct Exec
 					double f		= kid == 3 ? F.Integrate(a, b) : kid == 4 ? F.Local_Minimum(a, b) : F.Local_Maximum(a, b);
 					compare(o, fmt("%s(%.17g,%.17g)", nm, a, b).c_str(), u, f, knotty, scale, kid == 3 ? "C09:nonknot-bits:integral" : "C09:nonknot-bits:extremum", kid == 3 ? "C09:knot-history:integral" : "C09:knot-history:extremum");
 				}
+				// a fresh object of THIS process shares whatever the library keeps per process or per thread (scratch buffers, caches);
+				// in runs that have a pristine-process server, an eighth of these queries are also put to it
+				double f;
+				if(ref_req >= 0 && (mix64(ctx.salt ^ ((uint64_t) ctx.cur * 0x9E37ull)) & 7) == 0 && pristine(kid, 0, a, b, s, f))
+					compare(o, fmt("%s(%.17g,%.17g) (vs pristine process)", nm, a, b).c_str(), u, f, knotty, scale, "C09:pristine-process:nonknot", "C09:pristine-process:knot");
 			}
 			if(c08)
 			{
@@ -924,6 +930,9 @@ struct Exec
 					double f		= kid == 6 ? F.Global_Minimum() : F.Global_Maximum();
 					compare(o, kid == 6 ? "Global_Minimum()" : "Global_Maximum()", u, f, false, 0, "C09:nonknot-bits:extremum", "");
 				}
+			double fp;
+			if(c09 && ref_req >= 0 && (mix64(ctx.salt ^ ((uint64_t) ctx.cur * 0x9E37ull)) & 3) == 0 && pristine(kid, 0, 0.0, 0.0, s, fp))
+				compare(o, kid == 6 ? "Global_Minimum() (vs pristine process)" : "Global_Maximum() (vs pristine process)", u, fp, false, 0, "C09:pristine-process:nonknot", "");
 			if(c08)
 			{
 				Interpolation F = fresh1(s, 1);
@@ -1137,6 +1146,7 @@ struct Exec
 			int kid		= kind_id(o.kind);
 			if(kid < 0)
 				continue;
+			ctx.on_thread(o.t, [&] {
 			ctx.begin_op((int) k);
 			ctx.log.u64((uint64_t) kid);
 			int si = live_slot(o.i.empty() ? 0 : o.i[0]);
@@ -1155,6 +1165,8 @@ struct Exec
 				}
 				else
 				{
+					if(std::fabs(p) > 1e100)
+						ctx.probe(P_EXCURSION);
 					if(tab.two_d)
 						s.o2->Multiply(p);
 					else
@@ -1202,7 +1214,7 @@ struct Exec
 						std::swap(s.net, d.net);
 						std::swap(s.mx, d.mx);
 						std::swap(s.my, d.my);
-						continue;
+						return;
 					}
 					if(mode == 1 || mode == 4)
 					{
@@ -1283,6 +1295,7 @@ struct Exec
 				exec_query_2d(o, s, kid);
 			else
 				exec_query_1d(o, s, kid);
+			});
 		}
 		if(c09)
 			ctx.sh->nontrivial = tab.two_d ? (saw_up && saw_bis) : (saw_up && saw_down && saw_bis && saw_knot_corr);
@@ -1819,6 +1832,21 @@ struct Gen
 					set		  = r.chance(0.5);
 					if(f == 0.0)
 						f = -2.0;
+				}
+				else if(r.chance(0.08) && std::fabs(net[c.slot]) > 1e-8 && std::fabs(net[c.slot]) < 1e8)
+				{
+					// excursion: two consecutive Multiply calls that take the prefactor to the far end of the double range and
+					// back (1e-150..1e-290 then its reciprocal power of ten, or the other way round). The prefactor itself stays
+					// a normal number throughout; anything the object derived from it in between (a cached, pre-scaled table)
+					// passes through underflow or overflow. No query sits between the two calls.
+					double k10 = std::pow(10.0, (double) r.irange(150, 290));
+					bool down  = r.chance(0.5);
+					double f1 = r.sign() * (down ? 1.0 / k10 : k10), f2 = r.sign() * (down ? k10 : 1.0 / k10);
+					p.ops.push_back(Op("mul", {c.slot}, {f1}));
+					net[c.slot] *= f1;
+					f		  = f2;
+					set		  = false;
+					zero_game = true;	// keeps the range clamp below from turning the way back into a Set_Prefactor
 				}
 				else if(r.chance(0.03))
 				{
